@@ -9,6 +9,8 @@ func ByNames(names []string) []Script {
 			out = append(out, &Transfers{})
 		case "staking":
 			out = append(out, &Staking{})
+		case "delegation-drain":
+			out = append(out, &Delegation{Drain: true})
 		case "delegation":
 			out = append(out, &Delegation{})
 		case "valrewards":
